@@ -270,3 +270,36 @@ impl Default for BlockingRegistry {
         Self::new()
     }
 }
+
+#[cfg(feature = "verif-hooks")]
+impl BlockingManager {
+    /// Read-only listing of every registry entry, plus the wake-queue length
+    pub fn verif_snapshot(&self) -> (Vec<crate::verif_hooks::WaiterRow>, usize, Vec<(usize, Vec<u8>)>) {
+        let mut rows = Vec::new();
+        let mut flagged = Vec::new();
+        for (db, registry) in self.registries.iter().enumerate() {
+            let reg = registry.read().unwrap();
+            let mut keys: Vec<&Vec<u8>> = reg.blocked_on_key.keys().collect();
+            keys.sort();
+            for key in keys {
+                for c in reg.blocked_on_key[key].iter() {
+                    rows.push(crate::verif_hooks::WaiterRow {
+                        db,
+                        key: key.clone(),
+                        conn_id: c.conn_id,
+                        has_deadline: c.deadline.is_some(),
+                        op: match c.op_type {
+                            BlockingOp::BLPop => "blpop",
+                            BlockingOp::BRPop => "brpop",
+                            BlockingOp::XReadBlock(_) => "xread",
+                        },
+                    });
+                }
+            }
+            let mut bk: Vec<Vec<u8>> = reg.blocked_keys.iter().cloned().collect();
+            bk.sort();
+            for k in bk { flagged.push((db, k)); }
+        }
+        (rows, self.wake_queue.len(), flagged)
+    }
+}
